@@ -1,10 +1,177 @@
-import ZixModel.Model.BTree
-/-! # C08 — all memory goes through the caller's allocator and is released exactly once -/
+import ZixModel.Lemmas.BTreeDefs
+import ZixModel.Lemmas.BTreePages
+import ZixModel.Properties.C01History
+/-! # C08 — all memory goes through the caller's allocator and is released exactly once (B-tree)
+
+Property theorems only; helper lemmas live in `ZixModel/Lemmas/BTreePages.lean`.
+Every page of the B-tree model carries the id of its memory block; every operation returns the
+allocator events it caused (`Ev.alloc id`, `Ev.allocFail`, `Ev.free id`), and the correspondence
+harness compares these events, with ids, against the implementation's tracking allocator after
+every call.  The theorems say that over every history the events are a disciplined use of the
+allocator: a block is only released if it is live, never twice, and the live blocks are exactly the
+pages of the tree — so that after `free` nothing is outstanding. -/
 namespace Zix.C08
 open Zix.BTree
 
-/-- A granted page gets the next unused block id and the request counter always advances: ids are
-never reused, so "released exactly once" can be stated on ids. -/
+mutual
+/-- Block ids of all pages of a subtree. -/
+def pagesOf : Node → List Nat
+  | .leaf id _ => [id]
+  | .inode id _ cs => id :: pagesOfList cs
+def pagesOfList : List Node → List Nat
+  | [] => []
+  | c :: cs => pagesOf c ++ pagesOfList cs
+end
+
+/-- All blocks a tree owns: the tree record and every node page. -/
+def Tree.pages (t : Tree) : List Nat := t.treeId :: pagesOf t.root
+
+/-- Replay allocator events against the set of live blocks: `none` as soon as a block is granted
+twice, or released while not live (double release, foreign pointer). -/
+def applyEvs : List Nat → List Ev → Option (List Nat)
+  | live, [] => some live
+  | live, .alloc id :: rest => if id ∈ live then none else applyEvs (id :: live) rest
+  | live, .allocFail :: rest => applyEvs live rest
+  | live, .free id :: rest => if id ∈ live then applyEvs (live.erase id) rest else none
+
+/-- The tree's blocks are distinct and were all granted by the allocator (ids below its counter). -/
+def PagesOK (a : AllocSt) (t : Tree) : Prop := (Tree.pages t).Nodup ∧ ∀ id ∈ Tree.pages t, id < a.next
+
+/-- Events of `zix_btree_free`: everything `clear` releases, then the root page, then the tree record. -/
+def freeEvents (t : Tree) : List Ev := (t.clear).2.2 ++ [.free t.root.id, .free t.treeId]
+
+/-- One call with its events. -/
+def stepEv (c : Cfg) (fails : Nat → Bool) (s : AllocSt × Tree) : Zix.C01.Op → (AllocSt × Tree) × List Ev
+  | .ins e => let r := s.2.insert c fails s.1 e; ((r.1, r.2.1), r.2.2.2.1)
+  | .rm e => let r := s.2.remove c e; ((s.1, r.1), r.2.2.2.2.1)
+  | .clear => ((s.1, (s.2.clear).1), (s.2.clear).2.2)
+
+def runEv (c : Cfg) (fails : Nat → Bool) : (AllocSt × Tree) → List Zix.C01.Op → (AllocSt × Tree) × List Ev
+  | s, [] => (s, [])
+  | s, op :: ops =>
+    let (s', e1) := stepEv c fails s op
+    let (s'', e2) := runEv c fails s' ops
+    (s'', e1 ++ e2)
+
+/-! ### the definitions above are the ones the helper lemmas are stated for
+
+`ZixModel/Lemmas/BTreePages.lean` cannot see this file, so it works with copies (`Pg.pages`,
+`Pg.replay`, `Pg.treePages`, `Pg.OK`); these bridges identify them. -/
+
+mutual
+theorem pagesOf_eq : ∀ n : Node, pagesOf n = Pg.pages n
+  | .leaf id vs => by simp [pagesOf]
+  | .inode id vs cs => by simp [pagesOf, pagesOfList_eq cs]
+theorem pagesOfList_eq : ∀ cs : List Node, pagesOfList cs = Pg.pagesL cs
+  | [] => by simp [pagesOfList]
+  | c :: cs => by simp [pagesOfList, pagesOf_eq c, pagesOfList_eq cs]
+end
+
+theorem pages_eq (t : Tree) : Tree.pages t = Pg.treePages t := by
+  simp [Tree.pages, Pg.treePages, pagesOf_eq]
+
+theorem applyEvs_eq (live : List Nat) (evs : List Ev) : applyEvs live evs = Pg.replay live evs := by
+  induction evs generalizing live with
+  | nil => rfl
+  | cons x evs ih => cases x <;> simp [applyEvs, Pg.replay, ih]
+
+theorem pagesOK_iff (a : AllocSt) (t : Tree) : PagesOK a t ↔ Pg.OK a t := by
+  simp [PagesOK, Pg.OK, pages_eq]
+
+/-- A new tree owns exactly the two blocks it was granted; a failed construction owns nothing. -/
+theorem new_pages_accounted (fails : Nat → Bool) (a : AllocSt) :
+    match (Tree.new fails a).2.1 with
+    | some t => ∃ live, applyEvs [] (Tree.new fails a).2.2 = some live ∧ live.Perm (Tree.pages t) ∧ PagesOK (Tree.new fails a).1 t
+    | none => applyEvs [] (Tree.new fails a).2.2 = some [] := by
+  unfold Tree.new allocPage
+  by_cases h1 : fails a.reqs = true
+  · simp [h1, applyEvs]
+  · by_cases h2 : fails (a.reqs + 1) = true
+    · simp [h1, h2, applyEvs]
+    · simp only [h1, h2, Bool.false_eq_true, if_false]
+      refine ⟨[a.next + 1, a.next], by simp [applyEvs], ?_, ?_, ?_⟩
+      · simp only [Tree.pages, pagesOf]
+        exact List.Perm.swap _ _ _
+      · simp [Tree.pages, pagesOf]
+      · intro id hid
+        simp [Tree.pages, pagesOf] at hid
+        show id < a.next + 1 + 1
+        omega
+
+/-- Every single call uses the allocator correctly whatever it refuses: starting from the tree's
+own blocks, replaying the call's events never releases a dead or foreign block, never grants a live
+id, and ends with exactly the blocks of the resulting tree. -/
+theorem step_pages_accounted (c : Cfg) (hc : c.Valid) (fails : Nat → Bool) (s : AllocSt × Tree) (op : Zix.C01.Op)
+    (h : WF c s.2) (hp : PagesOK s.1 s.2) :
+    ∃ live, applyEvs (Tree.pages s.2) (stepEv c fails s op).2 = some live ∧
+      live.Perm (Tree.pages (stepEv c fails s op).1.2) ∧ PagesOK (stepEv c fails s op).1.1 (stepEv c fails s op).1.2 := by
+  simp only [applyEvs_eq, pages_eq, pagesOK_iff] at hp ⊢
+  cases op with
+  | ins e => exact Pg.insert_pages c hc fails s.1 s.2 e hp
+  | rm e => exact Pg.remove_pages c hc s.1 s.2 e h hp
+  | clear => exact Pg.clear_pages c s.1 s.2 h hp
+
+/-- One call keeps the representation invariant (same state as `Zix.C01.stepImpl`). -/
+theorem step_wf (c : Cfg) (hc : c.Valid) (fails : Nat → Bool) (s : AllocSt × Tree) (op : Zix.C01.Op)
+    (h : WF c s.2) : WF c (stepEv c fails s op).1.2 := by
+  cases op with
+  | ins e => exact (Zix.C01.insert_refines c hc fails s.1 s.2 e h).1
+  | rm e => exact (Zix.C01.remove_refines c hc s.2 e h).1
+  | clear => exact (Zix.C01.clear_destroys_each_once c s.2 h).2.1
+
+/-- Every history uses the allocator correctly: replaying all its events from (any arrangement of)
+the tree's blocks succeeds and ends with exactly the blocks of the final tree, which is well formed
+and owns distinct granted blocks. -/
+theorem history_pages_accounted (c : Cfg) (hc : c.Valid) (fails : Nat → Bool) (ops : List Zix.C01.Op) :
+    ∀ (s : AllocSt × Tree) (live : List Nat), WF c s.2 → PagesOK s.1 s.2 → live.Perm (Tree.pages s.2) →
+      ∃ live', applyEvs live (runEv c fails s ops).2 = some live' ∧
+        live'.Perm (Tree.pages (runEv c fails s ops).1.2) ∧
+        WF c (runEv c fails s ops).1.2 ∧ PagesOK (runEv c fails s ops).1.1 (runEv c fails s ops).1.2 := by
+  induction ops with
+  | nil => intro s live h hp hl; exact ⟨live, rfl, hl, h, hp⟩
+  | cons op ops ih =>
+    intro s live h hp hl
+    obtain ⟨l1, a1, a2, a3⟩ := step_pages_accounted c hc fails s op h hp
+    rw [applyEvs_eq] at a1
+    obtain ⟨l1', b1, b2⟩ := Pg.replay_of_perm hl ⟨l1, a1, a2⟩
+    obtain ⟨l2, d1, d2, d3, d4⟩ := ih (stepEv c fails s op).1 l1' (step_wf c hc fails s op h) a3 b2
+    refine ⟨l2, ?_, d2, d3, d4⟩
+    show applyEvs live ((stepEv c fails s op).2 ++ (runEv c fails (stepEv c fails s op).1 ops).2) = some l2
+    rw [applyEvs_eq] at d1 ⊢
+    rw [Pg.replay_append_some _ b1]
+    exact d1
+
+/-- Whole life cycle: construction, any history under any allocation oracle, then `free`: every block
+granted is released exactly once and nothing remains outstanding. -/
+theorem lifecycle_balanced (c : Cfg) (hc : c.Valid) (fails : Nat → Bool) (a : AllocSt) (t : Tree)
+    (hnew : (Tree.new fails a).2.1 = some t) (ops : List Zix.C01.Op) :
+    let s0 := ((Tree.new fails a).1, t)
+    let r := runEv c fails s0 ops
+    applyEvs [] ((Tree.new fails a).2.2 ++ r.2 ++ freeEvents r.1.2) = some [] := by
+  intro s0 r
+  have hn := new_pages_accounted fails a
+  rw [hnew] at hn
+  obtain ⟨l0, n1, n2, n3⟩ := hn
+  have hwf : WF c t :=
+    (Zix.C01.wf_new c fails a (Tree.new fails a).1 t (Tree.new fails a).2.2 (by rw [← hnew])).1
+  obtain ⟨l1, r1, r2, r3, r4⟩ := history_pages_accounted c hc fails ops s0 l0 hwf n3 n2
+  obtain ⟨l2, c1, c2, _⟩ := Pg.clear_pages c r.1.1 r.1.2 r3 ((pagesOK_iff _ _).1 r4)
+  rw [pages_eq] at r2
+  obtain ⟨l2', e1, e2⟩ := Pg.replay_of_perm r2 ⟨l2, c1, c2⟩
+  obtain ⟨l3, f1, f2⟩ := Pg.replay_frees [.free r.1.2.root.id, .free r.1.2.treeId]
+    (Rem.allFree_cons (Rem.allFree_cons Rem.allFree_nil)) l2' [] (by
+      refine e2.trans ?_
+      show [r.1.2.treeId, r.1.2.root.id].Perm [r.1.2.root.id, r.1.2.treeId]
+      exact List.Perm.swap _ _ _)
+  have hl3 : l3 = [] := List.Perm.eq_nil f2
+  subst hl3
+  rw [applyEvs_eq] at n1 r1 ⊢
+  unfold freeEvents
+  rw [List.append_assoc, Pg.replay_append_some _ n1, Pg.replay_append_some _ r1,
+    Pg.replay_append_some _ e1]
+  exact f1
+
+/-- A granted page gets the next unused block id and the request counter always advances. -/
 theorem alloc_page_fresh (fails : Nat → Bool) (a : AllocSt) :
     (allocPage fails a).1.reqs = a.reqs + 1 ∧
     (∀ id, (allocPage fails a).2.1 = some id → id = a.next ∧ (allocPage fails a).1.next = a.next + 1 ∧ (allocPage fails a).2.2 = [.alloc id]) ∧
